@@ -394,6 +394,10 @@ class DMRGEngine(IterativeSweeps):
         """
         max_E_err = self.options.get('max_E_err', 1.0e-8, 'real')
         max_S_err = self.options.get('max_S_err', 1.0e-5, 'real')
+        if len(self.sweep_stats['E']) < 1:
+            # no iteration since the (re-)initialization, e.g. directly after resuming from a
+            # checkpoint (`sweep_stats` are not part of the resume data): nothing to judge from
+            return False
         E = self.sweep_stats['E'][-1]
         Delta_E = self.sweep_stats['Delta_E'][-1]
         Delta_S = self.sweep_stats['Delta_S'][-1]
